@@ -554,13 +554,13 @@ def _run(ctx, tier, kind, work, phase, t0):
             return ["pf"] + (["ig"] if idx % 8 == 0 else []) + (["inc"] if idx % 32 == 1 else []) + \
                 (["N"] if idx % 32 == 2 else []) + (["D"] if idx % 32 == 3 else [])
         m = ["pf"]
-        if idx % 2 == 0:
+        if idx % 3 == 0:
             m.append("ig")
-        if idx % 8 == 1:
+        if idx % 12 == 1:
             m.append("inc")
-        if idx % 8 == 3:
+        if idx % 12 == 5:
             m.append("N")
-        if idx % 8 == 5:
+        if idx % 12 == 7:
             m.append("D")
         return m
 
